@@ -49,7 +49,15 @@ fn input_points<F: Flt>(l: &Layout, mode: Mode) -> Vec<Vec<Parts<F>>> {
             let x1 = few_assignments::<F>(l, *b, 1, l.nslots()).remove(0);
             // a lifted constant: all parts absent / zero
             let c = Parts::<F> { vals: (0..l.nslots()).map(|i| F::from64(if i == 0 { 1.5 } else { 0.0 })).collect(), present: vec![false; l.ngroups()] };
-            vec![x0, x1, c]
+            let mut v = vec![x0, x1, c];
+            if l.ngroups() >= 2 {
+                // a value whose first optional part is absent while the later ones are present
+                // (e.g. a Dual2Vec without gradient but with Hessian part)
+                let mut p = few_assignments::<F>(l, 0.5 * (*a + *b), 1, 2 * l.nslots()).remove(0);
+                p.present[0] = false;
+                v.push(p);
+            }
+            v
         })
         .collect()
 }
